@@ -1,4 +1,7 @@
 mod c03;
+mod c19;
+mod c19model;
+mod cli;
 mod common;
 mod hast;
 mod prng;
@@ -40,12 +43,23 @@ fn main() {
             };
             c03::main_batch(tier, n)
         }
+        "c19" => {
+            let tier = args.get(2).map(|s| s.as_str()).unwrap_or("quick");
+            let n: u64 = match std::env::var("VERIF_C19_SCENARIOS").ok().and_then(|s| s.parse().ok()) {
+                Some(n) => n,
+                None => {
+                    if tier == "thorough" { 4_000 } else { 60 }
+                }
+            };
+            c19::main_batch(tier, n)
+        }
         "replay" => {
             let path = args.get(2).unwrap_or_else(|| usage());
             let s = std::fs::read_to_string(path).unwrap_or_default();
             let doc: serde_json::Value = serde_json::from_str(&s).unwrap_or(serde_json::Value::Null);
             match doc["engine"].as_str() {
                 Some("c03") => c03::replay(path),
+                Some("c19") => c19::replay(path),
                 _ => {
                     eprintln!("HARNESS-ERROR: unknown engine in {}", path);
                     2
